@@ -314,7 +314,14 @@ pub(crate) fn gen_key(outfile: Option<String>, env_pass: bool) -> Result<(), any
     };
 
     let is_text = true;
-    let mut keyring = open_output(outfile.as_deref(), is_text)?;
+    // An existing keyring is appended to. Creating the file would truncate it
+    // and lose every key already stored there.
+    let mut keyring: Box<dyn Write> = match outfile.as_deref() {
+        Some(p) if Path::new(p).exists() => {
+            Box::new(std::fs::OpenOptions::new().append(true).open(p)?)
+        }
+        _ => open_output(outfile.as_deref(), is_text)?,
+    };
     keyring.write_all(key_output.as_bytes())?;
     keyring.flush()?;
 
